@@ -4,9 +4,14 @@ spec/common/Temporal.tla holds InWindow (from the property text) and the three c
 each component is structured; MCTemporal.tla enumerates every shard list of length <= 3 over instants 0..7 with
 present / absent bounds, checks the laws (server = window, list filter = window, shard index = window, exactly one
 shard inside the overall span and none outside, routing <=> admission, constructor refuses exactly the ill-formed
-lists) and exports every case.  harness/c18 replays every case into ctfe.ValidateChain / a configured ctfe.Instance,
-client.NewTemporalLogClient + IndexByDate and loglist3 TemporallyCompatible / Compatible under materializations that
-put hour, second and nanosecond distances between an instant and each bound.
+lists; the server as configured - ValidateLogConfig -> setUpLogInfo - enforces the configured window, an absent bound
+stays absent; completing absent bounds with the extremes of the representable range is a REFUTED observation that differs
+from the window exactly at the last instant) and exports every case and the FRAMES in which it has to be materialized.
+harness/c18 replays every case into ctfe.ValidateChain / a configured ctfe.Instance, client.NewTemporalLogClient +
+IndexByDate, loglist3 TemporallyCompatible / Compatible and integration.NotAfterForLog under materializations that put
+hour, second and nanosecond distances between an instant and each bound, at an ordinary instant and at the landmarks of
+the time machinery: 0000-01-01 and 9999-12-31T23:59:59Z (first / last instant a certificate can carry), 0001-01-01 (first
+protobuf Timestamp = zero time.Time), 1950 / 2050 (UTCTime <-> GeneralizedTime), Unix 0, 2038, 2262.
 """
 import json
 
@@ -17,7 +22,14 @@ LEVEL = "model_checking"
 ASSUME = [
     "instants are abstracted to their order: a case over ticks 0..7 is materialized by strictly monotone maps tick -> "
     "anchor + (tick - a) * unit with unit in {1h, 1s, 1ns, 999999999ns, 1000000001ns} and a whole-second anchor "
-    "(X.509 times have second resolution; sub-second components are on the bounds and on the full-resolution direct calls)",
+    "(X.509 times have second resolution; sub-second components are on the bounds and on the full-resolution direct calls); "
+    "the anchor is an ordinary instant (2031) and each landmark of the specification's FRAMES (0000-01-01, 0001-01-01, "
+    "1950-01-01, 1970-01-01, 2038-01-19T03:14:07Z, 2050-01-01, 2262-04-11T23:47:16Z, 9999-12-31T23:59:59Z); the frames at the "
+    "extremes are realized in full, of the frames inside the range the quick tier draws two materializations per case by seed",
+    "bounds are instants a configuration can name (protobuf Timestamp: 0001-01-01T00:00:00Z .. 9999-12-31T23:59:59.999999999Z); "
+    "the instant 0000-01-01T00:00:00Z appears as a NotAfter only",
+    "NAMED CLAUSES EmptyWindowConfigurable (the server's configuration accepts [a, a), which admits nothing; only "
+    "limit < start is refused) and ChooserInside (integration.NotAfterForLog returns an instant of every non-empty window)",
     "a log-list entry has a temporal interval with both ends or none (the JSON schema has no one-sided interval)",
     "NAMED CLAUSES EmptyListRefused / EmptyShardRefused: the property does not mention the empty list and the empty "
     "interval [a, a); the specification records that the constructor refuses both",
@@ -31,7 +43,10 @@ def run(ctx, replay=None):
             rp = json.load(f)
         case = rp["replay"]["case"]
         path = ctx.write_ndjson("replay.ndjson", [case])
-        ctx.go_test("c18", run="TestReplay$", env={"VERIF_CASES": path, "VERIF_NT": len(case.get("idx") or [0] * 8),
+        nt = len(case.get("idx") or [0] * 8)
+        frames = rp["replay"].get("frames") or [{"at": "Mid", "pins": list(range(nt)), "boundMin": 0, "top": nt - 1}]
+        fpath = ctx.write_ndjson("frames.ndjson", frames)
+        ctx.go_test("c18", run="TestReplay$", env={"VERIF_CASES": path, "VERIF_NT": nt, "VERIF_FRAMES": fpath,
                                                     "VERIF_REPLAY_ONE": 1})
         return
     # 1. exhaustive case analysis; every state is one shard list, the laws are invariants
@@ -48,10 +63,25 @@ def run(ctx, replay=None):
         if accepted == 0 or accepted == len(cases):
             raise Infra("vacuous domain: %d of %d lists accepted" % (accepted, len(cases)))
         ctx.log("%s: %d shard lists, %d accepted by the constructor" % (cfg, len(cases), accepted))
+        frames = r.records.get("FRAME", [])
+        if not frames or any(f["top"] != nt - 1 for f in frames):
+            raise Infra("the specification exported no frames for ticks 0..%d: %r" % (nt - 1, frames))
+        if not {"Mid", "First", "ConfFirst", "Last"} <= {f["at"] for f in frames}:
+            raise Infra("the frames of the extremes of the representable range are missing: %r" % frames)
         path = ctx.write_ndjson("cases-%d.ndjson" % nt, cases)
-        # 2. replay into the three components
-        ctx.go_test("c18", run="TestReplay$", env={"VERIF_CASES": path, "VERIF_NT": nt}, timeout=2400,
-                    name="c18-%d" % nt)
+        fpath = ctx.write_ndjson("frames-%d.ndjson" % nt, frames)
+        # 2. replay into the components, every case in every frame
+        _, _, reports = ctx.go_test("c18", run="TestReplay$", env={"VERIF_CASES": path, "VERIF_NT": nt, "VERIF_FRAMES": fpath},
+                                    timeout=2400, name="c18-%d" % nt)
+        # vacuity guard: every frame of the specification was realized by the harness
+        counters = {}
+        for rep in reports:
+            counters.update(rep.get("extra") or {})
+        missing = [f["at"] for f in frames if not counters.get("frame:" + f["at"])]
+        if missing:
+            raise Infra("frames never materialized by the harness: %s" % ", ".join(missing))
+        ctx.log("%s: materializations per frame: %s" % (cfg, ", ".join(
+            "%s=%d" % (f["at"], counters["frame:" + f["at"]]) for f in frames)))
         total += len(cases)
     ctx.exhaustive = {"domain": "all shard lists of length <= 3 over instants 0..7, bounds absent or 0..7"
                                 + ("; length <= 4 over instants 0..3" if ctx.thorough() else ""),
